@@ -210,6 +210,11 @@ def ms0(rng):
     return rng.choice(['', '', '', ' ', '\n', ' \r\n ', '\t'])
 
 
+def arr_ws(rng):
+    """white space after [, between the strings of an array, before ]: any, also none (fix: 2c2ca77)"""
+    return rng.choice([' ', ' ', ' ', '', '', '\t', '  ', '\n', '\r\n  ', ' % next\n', '\r'])
+
+
 def render_units(rng, units):
     out = '<'
     for i, u in enumerate(units):
@@ -230,7 +235,10 @@ def render_def(rng, d):
             return head + '[' + sp0(rng) + render_units(rng, d[4]) + sp0(rng) + ']' + ms1(rng) if d[3] == d[2] and len(d[4]) > 1 \
                 else head + render_units(rng, d[4]) + ms1(rng)
         return head + render_units(rng, d[4]) + ms1(rng)
-    return head + '[' + sp0(rng) + sp1(rng).join(render_units(rng, u) for u in d[4]) + sp0(rng) + ']' + ms1(rng)
+    out = head + '[' + arr_ws(rng)
+    for i, u in enumerate(d[4]):
+        out += (arr_ws(rng) if i else '') + render_units(rng, u)
+    return out + arr_ws(rng) + ']' + ms1(rng)
 
 
 CID_DICTS = [
@@ -383,6 +391,16 @@ def lay_brk0(rng):
     return [lay_witem(rng) for _ in range(rng.choice([0, 0, 1, 1, 2, 3]))]
 
 
+def lay_agap(rng):
+    """white space inside an array: any, also none"""
+    r = rng.random()
+    if r < 0.25:
+        return []
+    if r < 0.8:
+        return lay_gap1(rng)
+    return [lay_witem(rng) for _ in range(rng.choice([1, 2, 3]))]
+
+
 def lay_bits(rng, n):
     r = rng.random()
     if r < 0.3:
@@ -409,11 +427,11 @@ def lay_line(rng, kind, line):
     if kind == 'cs':
         ln, tg = line[2], []
     elif kind == 'bfchar':
-        ln, tg = line[1], [(lay_gap1(rng), lay_tlay(rng, line[2]))]
+        ln, tg = line[1], [(lay_agap(rng), lay_tlay(rng, line[2]))]
     else:
-        ln, tg = line[2], short(rng, [(lay_gap1(rng), lay_tlay(rng, u)) for u in line[3]])
+        ln, tg = line[2], short(rng, [(lay_agap(rng), lay_tlay(rng, u)) for u in line[3]])
     return {'c1': lay_bits(rng, 2 * ln), 'g1': lay_gap0(rng), 'c2': lay_bits(rng, 2 * ln), 'g2': lay_gap0(rng),
-            'br': 1 if rng.random() < 0.3 else 0, 'open': lay_gap0(rng), 'tgts': tg, 'close': lay_gap0(rng), 'end': lay_brk1(rng)}
+            'br': 1 if rng.random() < 0.3 else 0, 'open': lay_agap(rng), 'tgts': tg, 'close': lay_agap(rng), 'end': lay_brk1(rng)}
 
 
 def lay_layout(rng, secs):
@@ -437,8 +455,9 @@ def sx_bits(b):
 
 
 def sx_line(y):
-    return L('line', sx_bits(y['c1']), L(*y['g1']), sx_bits(y['c2']), L(*y['g2']), str(y['br']), L(*y['open']),
-             L('tgts', *[L(L(*g), L(*[L(sx_bits(b), L(*a)) for b, a in t])) for g, t in y['tgts']]), L(*y['close']),
+    ws = lambda l: L(*[sx_w(w) for w in l])
+    return L('line', sx_bits(y['c1']), L(*y['g1']), sx_bits(y['c2']), L(*y['g2']), str(y['br']), ws(y['open']),
+             L('tgts', *[L(ws(g), L(*[L(sx_bits(b), L(*a)) for b, a in t])) for g, t in y['tgts']]), ws(y['close']),
              L(*[sx_w(w) for w in y['end']]))
 
 
